@@ -348,3 +348,49 @@ Theorem parse_inline_literal isspace isword fuel s b i : s <> [] -> search isspa
   parse_inline isspace isword (S fuel) s b i = [(s, b, i)].
 Proof. intros Hs H. cbn [parse_inline]. destruct s; [congruence|]. now rewrite H. Qed.
 Print Assumptions apply_run_props_inherits.
+
+(* ---------- C03: the map's text is the reader's text; resolving a range never changes the tape ---------- *)
+Lemma offsets_text d : forall l off, map_text (offsets d l off) = flat_map sp_text l.
+Proof. induction l as [|s l IH]; intros off; [reflexivity|]. cbn [offsets]. unfold map_text in *. cbn [flat_map o_text]. now rewrite IH. Qed.
+Theorem map_text_is_extract clean d : map_text (build_map clean (d_comments d) d) = extract_u clean d.
+Proof. unfold build_map. rewrite offsets_text. unfold extract_u, extract, full_text, doc_spans_u, with_comments.
+  destruct d; reflexivity. Qed.
+Lemma offsets_contiguous d : forall l off, 
+  (fix chain (l : list ospan) (o : nat) : Prop := match l with [] => True | s :: r => o_start s = o /\ o_end s = o + length (o_text s) /\ chain r (o_end s) end) (offsets d l off) off.
+Proof. induction l as [|s l IH]; intros off; [exact I|]. cbn [offsets o_start o_end o_text]. repeat split. apply IH. Qed.
+Definition atape (p : para) := (p_id p, p_ppr p, p_style p, atoms_l [] (p_nodes p)).
+Definition ARel (d d' : doc) : Prop := map atape (doc_paras d') = map atape (doc_paras d) /\ d_stories (skeleton d') = d_stories (skeleton d) /\ d_comments d' = d_comments d.
+Lemma ARel_refl d : ARel d d. Proof. repeat split. Qed.
+Lemma ARel_trans a b c : ARel a b -> ARel b c -> ARel a c.
+Proof. intros (A1 & A2 & A3) (B1 & B2 & B3). repeat split; congruence. Qed.
+Lemma ARel_upd f d : (forall n ns st, f n = Some ns -> atoms_l st ns = atoms st n) -> ARel d (upd_doc f d).
+Proof. intros Hf. unfold upd_doc. split; [|split].
+  - rewrite doc_paras_map, map_map. apply map_ext. intros q. unfold atape, with_nodes. cbn [p_id p_ppr p_style p_nodes]. f_equal.
+    unfold upd_l, atoms_l. induction (p_nodes q) as [|n ns IH]; [reflexivity|]. cbn [flat_map]. rewrite flat_map_app, IH. f_equal. now apply upd_atoms.
+  - f_equal. apply skeleton_map. reflexivity.
+  - reflexivity. Qed.
+Lemma ARel_fresh d : ARel d (fst (fresh d)). Proof. repeat split. Qed.
+Lemma ARel_split d uid k : ARel d (fst (fst (do_split d uid k))).
+Proof. unfold do_split. pose proof (ARel_fresh d) as F. destruct (fresh d) as [d1 nu]. cbn [fst] in *.
+  eapply ARel_trans; [exact F|]. apply ARel_upd. intros n ns st E. exact (split_run_atoms _ _ _ _ _ st E). Qed.
+Ltac brk2 := match goal with
+  | |- context[match ?x with _ => _ end] => destruct x eqn:?
+  | |- context[if ?x then _ else _] => destruct x eqn:?
+  end.
+Theorem resolve_keeps_tape d sp a b : ARel d (fst (fst (resolve d sp a b))).
+Proof. unfold resolve.
+  destruct (filter o_real _) as [|first rest] eqn:Er; [apply ARel_refl|].
+  set (ro := offset_in_run sp first + (a - o_start first)).
+  destruct (0 <? ro) eqn:E0.
+  - pose proof (ARel_split d (o_uid first) ro) as S1. destruct (do_split d (o_uid first) ro) as [[d' l] r]. cbn [fst] in S1.
+    repeat (brk2; cbn [fst]; try exact S1).
+    all: try (match goal with H : do_split ?dd ?u ?k = (?d2, _, _) |- _ => pose proof (ARel_split dd u k) as S2; rewrite H in S2; cbn [fst] in S2; exact (ARel_trans _ _ _ S1 S2) end).
+  - repeat (brk2; cbn [fst]; try apply ARel_refl).
+    all: try (match goal with H : do_split ?dd ?u ?k = (?d2, _, _) |- _ => pose proof (ARel_split dd u k) as S2; rewrite H in S2; cbn [fst] in S2; exact S2 end).
+Qed.
+Theorem anchor_keeps_tape d sp i : ARel d (fst (insertion_anchor d sp i)).
+Proof. unfold insertion_anchor.
+  repeat (brk2; cbn [fst]; try apply ARel_refl).
+  all: try (match goal with H : do_split ?dd ?u ?k = (?d2, _, _) |- _ => pose proof (ARel_split dd u k) as S2; rewrite H in S2; cbn [fst] in S2; exact S2 end).
+Qed.
+Print Assumptions resolve_keeps_tape.
